@@ -380,3 +380,275 @@ def check_default_collapse(ctx, rule='optional-field-not-collapsed', genp=GENP, 
     if floor is not None:
         ctx.floor(rule, 'optional wire fields read with a default', n, floor)
     return n
+
+
+# ---------------------------------------------------------------------------------------------------------------------------------------
+# encoder-side coverage of the SOURCE structs (round 3): the rules above look at the wire messages (every message field is written and
+# read); this one looks the other way: every field of the plan node / expression the encoder is given must be read by the encoder
+# (directly, through a method of that struct, or through a From conversion), otherwise the information cannot be on the wire at all.
+
+# fields whose loss is not a loss: derived or diagnostic.  (struct short name, field) -> reason; types handled generically below.
+SRC_EXEMPT = {
+    ('Explain', 'stringified_plans'): 'filled while EXPLAIN is planned/executed; an encoded Explain node is re-planned after decoding',
+    ('Explain', 'logical_optimization_succeeded'): 'set by the optimizer of the decoding session',
+    ('TableScan', 'statistics_requests'): 'optimizer hint for statistics collection, does not change rows or the textual form',
+}
+SRC_EXEMPT_TYPES = (('DFSchema', 'schemas are recomputed by the plan builders on decode (derived from inputs / expressions / the source)'),
+                    ('Spans', 'source-location spans for diagnostics'))
+
+
+def _strip_ptr(t):
+    for w in ('alloc::boxed::Box<', 'alloc::sync::Arc<'):
+        if t.startswith(w):
+            return t[len(w):-1]
+    return t
+
+
+def encoder_reads(facts, root, enum_adt, follow=('datafusion_proto::', 'datafusion_proto_common::', '<datafusion_proto', '<datafusion_proto_common')):
+    """-> (struct-level reads {struct: {field}}, per-variant reads {variant: {(owner, field-or-index)}}, functions visited)"""
+    import collections
+    names = set(v['name'] for v in facts.adts[enum_adt]['variants'])
+    payloads = set()
+    for v in facts.adts[enum_adt]['variants']:
+        for fl in v['fields']:
+            payloads.add(_strip_ptr(fl[1]))
+    todo, seen, depth = [root], set(), {root: 0}
+    anyread, vread = collections.defaultdict(set), collections.defaultdict(set)
+    while todo:
+        d = todo.pop()
+        if d in seen:
+            continue
+        seen.add(d)
+        rec = facts.fn(d)
+        if rec is None:
+            continue
+        for k in [x for x in facts.fn_index if x.startswith(d + '::{closure')]:
+            if k not in seen:
+                todo.append(k)
+                depth[k] = depth[d]
+        if depth[d] < 3:
+            for c in facts.callees.get(d, ()):
+                own_method = any(c.startswith(p + '::') or c.startswith('<' + p + ' as ') for p in payloads if '::' in p)
+                if (c.startswith(follow) or own_method or (' as core::convert::From<' in c and 'datafusion' in c)) and c in facts.fn_index and c not in seen:
+                    todo.append(c)
+                    depth[c] = depth[d] + 1
+
+        def place(pl):
+            cur = None
+            for p in pl[1]:
+                if isinstance(p, list) and p[0] == 'd' and len(p) > 2 and p[2] in names:
+                    cur = p[2]
+                elif isinstance(p, list) and p[0] == 'f':
+                    owner = p[3] if len(p) > 3 else None
+                    if owner:
+                        anyread[owner].add(p[2])
+                    if cur is not None:
+                        vread[cur].add((owner, p[2] if len(p) > 2 and p[2] is not None else p[1]))
+                        vread[cur].add((owner, p[1]))
+
+        def walk(x):
+            if isinstance(x, list):
+                if len(x) == 2 and isinstance(x[0], int) and isinstance(x[1], list):
+                    place(x)
+                for y in x:
+                    walk(y)
+        for b in rec['bb']:
+            for st in b['s']:
+                walk(st)
+            walk(b['t'])
+    return anyread, vread, seen
+
+
+def check_encoder_reads(ctx, label, root, enum_adt, rule='encoder-reads-every-field', exempt=None, min_structs=0):
+    facts = ctx.facts
+    exempt = SRC_EXEMPT if exempt is None else exempt
+    if facts.fn(root) is None or enum_adt not in facts.adts:
+        ctx.lost(rule, root)
+        return 0
+    anyread, vread, seen = encoder_reads(facts, root, enum_adt)
+    ctx.analysed_fns.update(d for d in seen if '{closure' not in d)
+    # payload structs and how many variants share each
+    uses = {}
+    for v in facts.adts[enum_adt]['variants']:
+        for fl in v['fields']:
+            t = _strip_ptr(fl[1])
+            a = facts.adts.get(t)
+            if a and a['kind'] == 'struct' and not a.get('ext'):
+                uses.setdefault(t, []).append(v['name'])
+            elif a and a['kind'] == 'enum' and not a.get('ext') and t != enum_adt:
+                for v2 in a['variants']:
+                    for fl2 in v2['fields']:
+                        t2 = _strip_ptr(fl2[1])
+                        a2 = facts.adts.get(t2)
+                        if a2 and a2['kind'] == 'struct' and not a2.get('ext'):
+                            uses.setdefault(t2, []).append('%s::%s' % (v['name'], v2['name']))
+    n = 0
+
+    def exempted(short, fname, fty):
+        if (short, fname) in exempt:
+            return exempt[(short, fname)]
+        for pat, why in SRC_EXEMPT_TYPES:
+            if pat in fty:
+                return why
+        return None
+    for t, vs in sorted(uses.items()):
+        a = facts.adts[t]
+        fields = a['variants'][0]['fields']
+        short = t.rsplit('::', 1)[-1]
+        rd = anyread.get(t, set())
+        if not rd:
+            ctx.skip(rule, '%s(%s)' % (label, short), 'no field of this struct is read by the encoder (variant not supported by the encoder, or converted by an opaque Into)')
+            continue
+        n += 1
+        for fl in fields:
+            fname, fty = fl[0], fl[1]
+            inst = '%s.%s' % (short, fname)
+            why = exempted(short, fname, fty)
+            if fname in rd:
+                # a struct shared by several variants: each variant that reads the struct at all must read this field too
+                if len(vs) > 1:
+                    for v in vs:
+                        got = set(x for o, x in vread.get(v, ()) if o == t)
+                        if got and fname not in got and not why:
+                            ctx.fail(rule, '%s@%s' % (inst, v), ctx.loc(facts.fn(root)), 'the encoder reads %s for the %s variants %s but not for %s: that part of a %s expression is not on the wire'
+                                     % (inst, label, sorted(x for x in vs if fname in set(y for o, y in vread.get(x, ()) if o == t)), v, v), key='%s|%s@%s' % (rule, inst, v))
+                continue
+            if why:
+                ctx.ok(rule, inst, nontrivial=False, sample=None)
+                continue
+            ctx.fail(rule, inst, ctx.loc(facts.fn(root)), 'no function of the %s encoder (nor a method of %s it calls) reads the field `%s` (%s): it cannot be on the wire, the decoded %s differs from the original'
+                     % (label, short, fname, fty[-60:], label), key='%s|%s' % (rule, inst))
+        if not any(f_[0] not in rd and not exempted(short, f_[0], f_[1]) for f_ in fields):
+            ctx.ok(rule, '%s(%s)' % (label, short), sample={'struct': short, 'fields': len(fields), 'read': len([f_ for f_ in fields if f_[0] in rd])} if n < 8 else None)
+    # tuple variants with several direct fields: an index never read while another one is
+    for v in facts.adts[enum_adt]['variants']:
+        if len(v['fields']) < 2 or any(fl[0] and not str(fl[0]).isdigit() for fl in v['fields']):
+            continue
+        got = set(x for o, x in vread.get(v['name'], ()) if o == enum_adt and isinstance(x, int))
+        if not got:
+            continue
+        for k, fl in enumerate(v['fields']):
+            inst = '%s::%s.%d' % (enum_adt.rsplit('::', 1)[-1], v['name'], k)
+            if k in got or any(p in fl[1] for p, _ in SRC_EXEMPT_TYPES):
+                continue
+            ctx.fail(rule, inst, ctx.loc(facts.fn(root)), 'the encoder reads field(s) %s of %s::%s but never field %d (%s): it cannot be on the wire' % (
+                sorted(got), enum_adt.rsplit('::', 1)[-1], v['name'], k, fl[1][-60:]), key='%s|%s' % (rule, inst))
+    if min_structs:
+        ctx.floor(rule, '%s payload structs the encoder reads' % label, n, min_structs)
+    return n
+
+
+# ---------------------------------------------------------------------------------------------------------------------------------------
+# tag round trip of a payload-carrying enum through a oneof (Expr <-> logical_expr_node::ExprType): the encoder's table V -> W is read off
+# per-variant exploration, the decoder's table W -> constructors from the CFG region of each match arm (constructors built in the arm, passed
+# as function items to a helper, or built by a proto-crate helper the arm calls).  dec(enc(V)) must be able to give V back and nothing foreign.
+
+def oneof_roundtrip(ctx, enum_adt, enc_fn, dec_fn, oneof_adt, rule='oneof-tag-roundtrip', floor=0):
+    import cfg
+    from traces import run_traces
+    from enumtab import vi_of_discr, variant_names, Undecidable, R, A, sym, strip
+    f = ctx.facts
+    erec, drec = f.fn(enc_fn), f.fn(dec_fn)
+    if erec is None or drec is None or enum_adt not in f.adts or oneof_adt not in f.adts:
+        ctx.lost(rule, '%s / %s' % (enc_fn, dec_fn))
+        return 0
+    ctx.analysed_fns.update((enc_fn, dec_fn))
+    enames = set(variant_names(f, enum_adt))
+    enc = {}
+    for vi, v in enumerate(f.adts[enum_adt]['variants']):
+        args = [R(A(enum_adt, vi, v['name'], ()))] + [R(sym('a%d' % k)) for k in range(1, erec['argc'])]
+        try:
+            outs = run_traces(f, erec, args, inline_depth=0, time_budget=10, budget=300000, loop_visits=1)
+        except Undecidable:
+            enc[v['name']] = None
+            continue
+        built = set()
+        for o in outs:
+            r = strip(o.ret)
+            if isinstance(r, A) and r.name == 'Ok':
+                built |= set(e[2] for e in o.events if e[0] == 'agg' and e[1] == oneof_adt)
+        enc[v['name']] = built
+
+    def ctors(rec, blocks):
+        out, callees = set(), set()
+
+        def walk(x):
+            if isinstance(x, dict):
+                fd = x.get('fn')
+                if isinstance(fd, dict):
+                    nm = fd.get('res') or fd.get('def') or ''
+                    if nm.startswith(enum_adt + '::') and nm.rsplit('::', 1)[-1] in enames:
+                        out.add(nm.rsplit('::', 1)[-1])
+                for y in x.values():
+                    walk(y)
+            elif isinstance(x, list):
+                if len(x) >= 2 and x[0] == 'agg' and isinstance(x[1], list) and x[1] and x[1][0] == 'adt' and x[1][1] == enum_adt:
+                    out.add(x[1][3])
+                for y in x:
+                    walk(y)
+        for bi in blocks:
+            b = rec['bb'][bi]
+            for st in b['s']:
+                walk(st)
+            t = b['t']
+            walk(t)
+            if t[0] == 'call' and isinstance(t[1], dict):
+                nm = t[1].get('res') or t[1].get('def') or ''
+                if nm.startswith(enum_adt + '::') and nm.rsplit('::', 1)[-1] in enames:
+                    out.add(nm.rsplit('::', 1)[-1])
+                callees.add(nm)
+        return out, callees
+    sc = cfg.succs(drec)
+    dom, _ = cfg.dominators(sc)
+    discr_locals = set(st[1][0] for b in drec['bb'] for st in b['s'] if st[0] == '=' and st[2][0] == 'discr' and not st[1][1])
+    sw = None
+    for b in drec['bb']:
+        t = b['t']
+        if t[0] == 'switch' and t[1][0] in ('c', 'm') and not t[1][1][1] and t[1][1][0] in discr_locals and (sw is None or len(t[2]) > len(sw[2])):
+            sw = t
+    if sw is None or len(sw[2]) < 5:
+        ctx.lost(rule, dec_fn + ' (match on the oneof)')
+        return 0
+    wnames = variant_names(f, oneof_adt)
+    crate = dec_fn.split('::')[0] + '::'
+    dec = {}
+    for val, tg in sw[2]:
+        vi = vi_of_discr(f, oneof_adt, val)
+        if vi is None:
+            continue
+        region = [k for k in range(len(drec['bb'])) if tg in dom.get(k, ())]
+        cs, callees = ctors(drec, region)
+        for c in callees:
+            r2 = f.fn(c)
+            if c.startswith(crate) and r2 is not None and c != dec_fn:
+                for body in [c] + [x for x in f.fn_index if x.startswith(c + '::{closure')]:
+                    rb = f.fn(body)
+                    if rb is not None:
+                        cs |= ctors(rb, range(len(rb['bb'])))[0]
+        dec[wnames[vi]] = cs
+    n = 0
+    for v, ws in sorted(enc.items()):
+        if not ws:
+            if ws is None:
+                ctx.undecided(rule, v, 'encoder exploration budget')
+            else:
+                ctx.skip(rule, v, 'the encoder has no successful path for this variant (not supported on the wire)')
+            continue
+        for w in sorted(ws):
+            back = dec.get(w)
+            inst = '%s -> %s' % (v, w)
+            if not back:
+                ctx.skip(rule, inst, 'the decoder arm builds the value outside the crate (builder API): not decided')
+                continue
+            n += 1
+            foreign = sorted(x for x in back if w not in (enc.get(x) or ()))
+            if v not in back:
+                ctx.fail(rule, inst, ctx.loc(drec), 'the encoder writes %s::%s as %s, but the decoder arm for %s builds %s: the variant does not come back' % (
+                    enum_adt.rsplit('::', 1)[-1], v, w, w, sorted(back)), key='%s|%s' % (rule, inst))
+            elif foreign:
+                ctx.fail(rule, inst, ctx.loc(drec), 'the decoder arm for %s can also build %s, which the encoder never writes as %s' % (w, foreign, w), key='%s|%s|foreign' % (rule, inst))
+            else:
+                ctx.ok(rule, inst, sample={'variant': v, 'wire': w, 'decoded': sorted(back)} if n < 8 else None)
+    if floor:
+        ctx.floor(rule, 'variant/wire pairs decided', n, floor)
+    return n
